@@ -361,7 +361,7 @@ func genState(sp stateSpec, tier string) core.Case {
 func (engine) Generate(rng *rand.Rand, tier string) []core.Case {
 	nStates := map[string]int{"tx": 12, "addr": 6}
 	if tier == "thorough" {
-		nStates = map[string]int{"tx": 30, "addr": 16}
+		nStates = map[string]int{"tx": 24, "addr": 10}
 	}
 	if v := os.Getenv("VX_C10_STATES"); v != "" {
 		if n, err := strconv.Atoi(v); err == nil {
